@@ -46,7 +46,14 @@ pub enum Kind {
     Exec,
     Stream,
     /// composite of n eventfd-backed Generic children (READ/Level), optionally each in a TransientSource
-    Comp { n: u8, transient: bool },
+    /// n Generic sub-sources (plain or each wrapped in a TransientSource); `timer`: a Timer sub-source registered
+    /// before them (a watchdog: never lapses, always has a representable deadline)
+    Comp {
+        n: u8,
+        transient: bool,
+        #[serde(default)]
+        timer: Option<Dl>,
+    },
     /// a user-written source that registers its eventfd with the Poll directly and calls its callback for
     /// every event it is handed (no token filtering of its own, no clean-up on drop)
     Raw,
@@ -184,6 +191,12 @@ pub enum Op {
     SendBurst(Sel),
     /// LoopSignal::wakeup(): the next wait returns at once, with no event
     Wakeup,
+    /// more stream items than any per-dispatch batch limit could take (1100), made ready at once
+    StreamBurst(Sel),
+    /// change interest and mode of a Generic through the Dispatcher, then update()
+    Retarget(Sel, Int, Md),
+    /// LoopSignal::stop(): only run() looks at the flag, a plain dispatch is not affected by it
+    Stop,
     /// register_dispatcher() with the Dispatcher of a source that is registered already: the poller
     /// rejects the duplicate fd, the call must fail and change nothing
     RegisterAgain(Sel),
